@@ -129,6 +129,7 @@ MCInner == {tla_val(set(c['inner']))}
         cfg.append(f"  {k} = {c[k]}")
     for f in ALL_FIXES:
         cfg.append(f"  {f} = {tla_val(f in fixes)}")
+    cfg.append('  Mut = "%s"' % c.get("mut", "none"))
     cfg += ["SPECIFICATION Spec", "VIEW view", "CHECK_DEADLOCK FALSE", "INVARIANT NoViolation"]
     if emit == "terminal":
         cfg.append("INVARIANT Emit")
@@ -376,7 +377,7 @@ def replay(behaviours, c, tag, seed):
     return trace, stats
 
 
-def stress(behaviours, c, tag, seed, threads=4, rounds=200, interval_us=150):
+def stress(behaviours, c, tag, seed, threads=4, rounds=200, interval_us=150, idle_every=20):
     """Free-running executions: one-thread programs on several real threads against the real background
     collector (harness `stress`). Returns the trace path."""
     d = os.path.join(OUT, "replay", tag)
@@ -388,7 +389,7 @@ def stress(behaviours, c, tag, seed, threads=4, rounds=200, interval_us=150):
             f.write(json.dumps(dict(id=i, steps=b["steps"])) + "\n")
     outp = os.path.join(d, "trace.ndjson")
     cmd = [HBIN, "stress", "--in", inp, "--out", outp, "--seed", str(seed), "--threads", str(threads), "--rounds", str(rounds),
-           "--interval-us", str(interval_us)] + [x for x in harness_opts(c) if x not in ("--churn",)]
+           "--interval-us", str(interval_us), "--idle-every", str(idle_every)] + [x for x in harness_opts(c) if x not in ("--churn",)]
     try:
         r = subprocess.run(cmd, stdout=subprocess.PIPE, stderr=subprocess.PIPE, text=True, timeout=1800)
     except subprocess.TimeoutExpired:
